@@ -527,3 +527,400 @@ Theorem C17_example_restriction_satisfiable :
     match v with V.Model.ExampleValue.VVariant _ _ => True | _ => False end.
 Proof. exact V.Proofs.ExamplesC17Restrict.example_restriction_satisfiable. Qed.
 Print Assumptions C17_example_restriction_satisfiable.
+
+(** ** de-duplication under renumbering (Proofs/TeqEquivariance.v, Proofs/DedupPerm.v): the clause
+    "maps de-duplication renames to the same shape groups", so far only evaluated per case by
+    [prop_dedup_groups] (Corr/CheckTG.v). *)
+From V Require Model.DedupSpec Model.DedupPerm Proofs.TeqEquivariance Proofs.DedupPerm.
+
+(** [types_equal] commutes with a renumbering: same verdict, same error, same panic, for every
+    pair of ids (in range or not).  [teq] only tests ids for equality (the [a == b] shortcut,
+    membership in the visited sets, the lookup in a [GenericsList] frame) and resolves them. *)
+Theorem C17_types_equal_equivariant :
+  forall pi r, renumbering (N.of_nat (List.length r)) pi ->
+    forall a b, types_equal_res (renumber pi r) (pi a) (pi b) = types_equal_res r a b.
+Proof. exact V.Proofs.TeqEquivariance.types_equal_res_renumber. Qed.
+Print Assumptions C17_types_equal_equivariant.
+
+(** ... the whole run is the image of the original run: for every fuel, both parameter lists
+    ([map_glist]: the ids inside the frames renamed) and every visited state ([map_vstate]: both
+    visited sets renamed); [map_tres] renames the two visited sets of an [Ok] outcome and keeps
+    verdict, error and panic *)
+Theorem C17_teq_equivariant :
+  forall pi r, renumbering (N.of_nat (List.length r)) pi ->
+    forall fuel a ap b bp st,
+      teq (renumber pi r) fuel (pi a) (V.Proofs.TeqEquivariance.map_glist pi ap)
+          (pi b) (V.Proofs.TeqEquivariance.map_glist pi bp) (V.Proofs.TeqEquivariance.map_vstate pi st) =
+      V.Proofs.TeqEquivariance.map_tres pi (teq r fuel a ap b bp st).
+Proof. exact V.Proofs.TeqEquivariance.teq_renumber. Qed.
+Print Assumptions C17_teq_equivariant.
+
+(** under the hypothesis [teq_equiv_on_families r] (Model/DedupPerm.v: on the positions carrying
+    one namespaced path [types_equal] always answers, symmetrically and transitively; reflexivity
+    is unconditional) the groups of [build_groups] ARE the equivalence classes, whatever the
+    order of the entries: two members of a family are in one group iff they are judged equal ... *)
+Theorem C17_dedup_groups_are_classes :
+  forall r m, build_groups r = Ok m -> V.Model.DedupPerm.teq_equiv_on_families r ->
+    forall p gs i j,
+      In (p, gs) m -> V.Model.DedupSpec.entry_at r i p -> V.Model.DedupSpec.entry_at r j p ->
+      ((exists g, In g gs /\ In i g /\ In j g) <-> types_equal_res r i j = Ok true).
+Proof. exact V.Proofs.DedupPerm.same_group_iff_equal. Qed.
+Print Assumptions C17_dedup_groups_are_classes.
+
+(** ... a family is split (and its members renamed, [C04_minimal]) iff it has two members judged
+    different ... *)
+Theorem C17_dedup_split_iff :
+  forall r m, build_groups r = Ok m -> V.Model.DedupPerm.teq_equiv_on_families r ->
+    forall p gs, In (p, gs) m ->
+      ((2 <= List.length gs)%nat <-> V.Model.DedupPerm.fam_split r p).
+Proof. exact V.Proofs.DedupPerm.split_iff_fam_split. Qed.
+Print Assumptions C17_dedup_split_iff.
+
+(** ... and the grouping loop itself cannot fail *)
+Theorem C17_build_groups_total :
+  forall r, V.Model.DedupPerm.teq_equiv_on_families r -> exists m, build_groups r = Ok m.
+Proof. exact V.Proofs.DedupPerm.build_groups_total. Qed.
+Print Assumptions C17_build_groups_total.
+
+Theorem C17_teq_equiv_checked :
+  forall r, V.Model.DedupPerm.teq_equiv_on_familiesb r = true -> V.Model.DedupPerm.teq_equiv_on_families r.
+Proof. exact V.Proofs.DedupPerm.teq_equiv_on_familiesb_sound. Qed.
+Print Assumptions C17_teq_equiv_checked.
+
+(** C17, de-duplication half: the model-level statement of what [prop_dedup_groups_raw]
+    (Corr/CheckTG.v) evaluates on the observed outputs, with its three clauses.  The entry at
+    position [i] of [r] sits at position [pi i] of [renumber pi r] ([C17_resolve_renumber]); [r1],
+    [r2] are the registries after the pass.
+    - same outcome kind: both passes succeed, or both fail with the id-mismatch error (the only
+      error of the pass; under the hypothesis no comparison panics or runs out of fuel);
+    - renamed iff renamed: the path at [i] changes iff the path at [pi i] changes;
+    - same partition of every family: two entries with one original path share a path after the
+      pass on [r] iff their images do after the pass on [renumber pi r].  (The digit a group
+      receives follows the order of first appearance and is NOT invariant:
+      [C17_dedup_partition_example].)
+    PARTIAL: the hypothesis [teq_equiv_on_familiesb r] - [types_equal] is an equivalence relation
+    on every same-path family of namespaced entries of [r]; it carries over to [renumber pi r]
+    (first conjunct), so it is asked of ONE registry only.  F3 (unsound shortcuts make the
+    relation non-transitive) and F18 (incomplete on coincidences, order-dependent) are exactly
+    its failures, and without it the statement is false: [C17_dedup_hypothesis_needed]. *)
+Theorem C17_dedup_partition_invariant_partial :
+  forall pi r,
+    renumbering (N.of_nat (List.length r)) pi ->
+    V.Model.DedupPerm.teq_equiv_on_familiesb r = true ->
+    V.Model.DedupPerm.teq_equiv_on_families (renumber pi r) /\
+    ((exists r1 r2, ensure_unique r = Ok r1 /\ ensure_unique (renumber pi r) = Ok r2) \/
+     (exists g e g' e', ensure_unique r = Err (EIdsInvalid g e) /\
+                        ensure_unique (renumber pi r) = Err (EIdsInvalid g' e'))) /\
+    forall r1 r2, ensure_unique r = Ok r1 -> ensure_unique (renumber pi r) = Ok r2 ->
+      forall i ei ei1 ei2,
+        nth_error r (N.to_nat i) = Some ei ->
+        nth_error r1 (N.to_nat i) = Some ei1 ->
+        nth_error r2 (N.to_nat (pi i)) = Some ei2 ->
+        (t_path (snd ei1) <> t_path (snd ei) <-> t_path (snd ei2) <> t_path (snd ei)) /\
+        forall j ej ej1 ej2,
+          nth_error r (N.to_nat j) = Some ej ->
+          nth_error r1 (N.to_nat j) = Some ej1 ->
+          nth_error r2 (N.to_nat (pi j)) = Some ej2 ->
+          t_path (snd ei) = t_path (snd ej) ->
+          (t_path (snd ei1) = t_path (snd ej1) <-> t_path (snd ei2) = t_path (snd ej2)).
+Proof. exact V.Proofs.DedupPerm.dedup_partition_invariant. Qed.
+Print Assumptions C17_dedup_partition_invariant_partial.
+
+(** non-vacuity: a::Foo(u8), b::Bar(u8), a::Foo(u16), a::Foo(u8), Foo(u8), u8, u16 with positions
+    0 / 2 and 5 / 6 exchanged.  [new_paths]: the paths after the pass, by position.  The same
+    entries are renamed and the same pairs share a path; the digits are exchanged. *)
+Theorem C17_dedup_partition_example :
+  exists pi r,
+    renumbering (N.of_nat (List.length r)) pi /\ V.Model.DedupPerm.teq_equiv_on_familiesb r = true /\
+    (exists i, pi i <> i) /\
+    V.Model.DedupPerm.new_paths r =
+      Ok [["a"; "Foo1"]; ["b"; "Bar"]; ["a"; "Foo2"]; ["a"; "Foo1"]; ["Foo"]; []; []]%string /\
+    V.Model.DedupPerm.new_paths (renumber pi r) =
+      Ok [["a"; "Foo1"]; ["b"; "Bar"]; ["a"; "Foo2"]; ["a"; "Foo2"]; ["Foo"]; []; []]%string.
+Proof. exact V.Proofs.DedupPerm.dedup_partition_example. Qed.
+Print Assumptions C17_dedup_partition_example.
+
+(** the hypothesis is needed (finding F3; corpus/families/F03_split_instantiations.json
+    transcribed): a::F<T = u8> { x: u16 }, then a::F<T> { x: T } at u16 and at u8.  0 ~ 3 and 3 ~ 4
+    but not 0 ~ 4; in the given order the family is split (F1, F1, F2), with the instantiation at
+    u16 first it is one group and nothing is renamed. *)
+Theorem C17_dedup_hypothesis_needed :
+  exists pi r,
+    renumbering (N.of_nat (List.length r)) pi /\ V.Model.DedupPerm.teq_equiv_on_familiesb r = false /\
+    types_equal_res r 0 3 = Ok true /\ types_equal_res r 3 4 = Ok true /\
+    types_equal_res r 0 4 = Ok false /\
+    V.Model.DedupPerm.new_paths r = Ok [["a"; "F1"]; []; []; ["a"; "F1"]; ["a"; "F2"]]%string /\
+    V.Model.DedupPerm.new_paths (renumber pi r) = Ok [["a"; "F"]; []; []; ["a"; "F"]; ["a"; "F"]]%string.
+Proof. exact V.Proofs.DedupPerm.dedup_hypothesis_needed. Qed.
+Print Assumptions C17_dedup_hypothesis_needed.
+
+(** ** restriction: example values and the converse typing direction
+    (Proofs/ExampleRestrictValue.v, Proofs/HasTypeFuel.v; these settle the two items
+    [C17_has_type_restriction_partial] lists as not proved). *)
+From V Require Proofs.ExampleRestrictValue Proofs.HasTypeFuel.
+
+(** the run of the example transformer commutes with a renumbering: same value, same remaining
+    words, cache keys renamed, the two errors that carry an id carry the renamed id ([equiv],
+    Proofs/ExampleRestrictValue.v: [x' (mapst s) = mapres (x s)] for every state [s]) *)
+Theorem C17_example_run_renumber :
+  forall pi r, renumbering (N.of_nat (List.length r)) pi ->
+    forall fuel id,
+      V.Proofs.ExampleRestrictValue.equiv pi
+        (V.Model.ExampleValue.resolve_go fuel (renumber pi r) (pi id))
+        (V.Model.ExampleValue.resolve_go fuel r id).
+Proof. exact V.Proofs.ExampleRestrictValue.resolve_go_renumber. Qed.
+Print Assumptions C17_example_run_renumber.
+
+(** C17_restriction (examples): the example generated from a word stream on the restricted
+    registry at the retained id [pi id] is THE example generated from the same word stream on the
+    full registry at [id].  No hypothesis on the registry.  PARTIAL: one direction - a successful
+    restricted run is the same successful full run; without closedness of the restricted registry
+    the converse is false (a full run may leave the prefix).  The equation between the two outcomes
+    on a closed restricted registry is [C17_example_restriction_same_outcome] below; with
+    [C12_returns] on the restricted registry both examples exist and are equal:
+    [C17_example_restriction_same_value_safe]. *)
+Theorem C17_example_restriction_same_value_partial :
+  forall pi k r id ws v,
+    renumbering (N.of_nat (List.length r)) pi ->
+    V.Model.ExampleValue.example_value (restrict pi k r) (pi id) ws = V.Model.ExampleValue.XOk v ->
+    V.Model.ExampleValue.example_value r id ws = V.Model.ExampleValue.XOk v.
+Proof. exact V.Proofs.ExampleRestrictValue.example_restriction_same_value. Qed.
+Print Assumptions C17_example_restriction_same_value_partial.
+
+Theorem C17_example_restriction_same_value_safe :
+  forall pi k r id ws,
+    renumbering (N.of_nat (List.length r)) pi ->
+    V.Model.ExampleValue.safeb (restrict pi k r) (pi id) = true ->
+    (exists v, V.Model.ExampleValue.example_value (restrict pi k r) (pi id) ws = V.Model.ExampleValue.XOk v /\
+               V.Model.ExampleValue.example_value r id ws = V.Model.ExampleValue.XOk v) \/
+    V.Model.ExampleValue.example_value (restrict pi k r) (pi id) ws =
+      V.Model.ExampleValue.XErr V.Model.ExampleValue.XOutOfWords.
+Proof. exact V.Proofs.ExampleRestrictValue.example_restriction_same_value_safe. Qed.
+Print Assumptions C17_example_restriction_same_value_safe.
+
+(** typing only follows reachable ids: on a CLOSED restricted registry ([closed], what scale-info's
+    [retain] guarantees) the checker of the restricted registry at a retained id [pi id] and the
+    checker of the full registry at [id] agree at EVERY fuel *)
+Theorem C17_has_type_fuel_restriction :
+  forall pi k r, renumbering (N.of_nat (List.length r)) pi -> closed (restrict pi k r) ->
+    forall f id v, in_reg (restrict pi k r) (pi id) ->
+      V.Model.ExampleValue.has_type_fuel f (restrict pi k r) (pi id) v =
+      V.Model.ExampleValue.has_type_fuel f r id v.
+Proof. exact V.Proofs.ExampleRestrictValue.has_type_fuel_restriction. Qed.
+Print Assumptions C17_has_type_fuel_restriction.
+
+(** the fuel bound: the fuel of [has_typeb] ([value_depth v * S (length r)], which depends on the
+    size of the registry) is enough whenever any fuel is - a successful check follows, between two
+    value levels, a chain of compact entries that cannot revisit an id *)
+Theorem C17_has_type_fuel_enough :
+  forall r F id v,
+    V.Model.ExampleValue.has_type_fuel F r id v = true -> V.Model.ExampleValue.has_typeb r id v = true.
+Proof. exact V.Proofs.HasTypeFuel.has_type_fuel_enough. Qed.
+Print Assumptions C17_has_type_fuel_enough.
+
+(** C17_restriction (example validity), the CONVERSE direction of
+    [C17_has_type_restriction_partial]: a value typed by the FULL registry at [id] is typed by the
+    closed restricted registry at the retained id [pi id] - by its checker (with its own, smaller
+    fuel) and in the relation of C12.  Nothing is missing under the stated hypotheses (closed
+    restricted registry, retained id), hence no [_partial]. *)
+Theorem C17_has_type_restriction_converse :
+  forall pi k r id v,
+    renumbering (N.of_nat (List.length r)) pi -> closed (restrict pi k r) ->
+    in_reg (restrict pi k r) (pi id) ->
+    V.Model.ExampleValue.has_typeb r id v = true ->
+    V.Model.ExampleValue.has_typeb (restrict pi k r) (pi id) v = true /\
+    V.Model.ExampleValue.has_type (restrict pi k r) (pi id) v.
+Proof. exact V.Proofs.HasTypeFuel.has_typeb_restriction_converse. Qed.
+Print Assumptions C17_has_type_restriction_converse.
+
+(** both directions: "example validity for retained ids is unchanged" as an equation between the
+    two verdicts *)
+Theorem C17_has_type_restriction_eq :
+  forall pi k r id v,
+    renumbering (N.of_nat (List.length r)) pi -> closed (restrict pi k r) ->
+    in_reg (restrict pi k r) (pi id) ->
+    V.Model.ExampleValue.has_typeb (restrict pi k r) (pi id) v = V.Model.ExampleValue.has_typeb r id v.
+Proof. exact V.Proofs.HasTypeFuel.has_typeb_restriction_eq. Qed.
+Print Assumptions C17_has_type_restriction_eq.
+
+(** C17_restriction (examples), full form: on a closed restricted registry the example run at a
+    retained id [pi id] has THE outcome of the run on the full registry at [id] from the same word
+    stream - the same value, or the same error ([xmap pi]: the id inside "recursive type" / "not
+    found" is the renamed one), never a panic or fuel exhaustion on one side only.  Rests on
+    [C12_total] (the fuel [S (length r)] never runs out, so the two different fuels do not matter). *)
+Theorem C17_example_restriction_same_outcome :
+  forall pi k r id ws,
+    renumbering (N.of_nat (List.length r)) pi -> closed (restrict pi k r) ->
+    in_reg (restrict pi k r) (pi id) ->
+    V.Model.ExampleValue.example_value (restrict pi k r) (pi id) ws =
+    V.Proofs.ExampleRestrictValue.xmap pi (V.Model.ExampleValue.example_value r id ws).
+Proof. exact V.Proofs.ExampleRestrictValue.example_restriction_same_outcome. Qed.
+Print Assumptions C17_example_restriction_same_outcome.
+
+Theorem C17_restriction_closed_satisfiable :
+  exists pi k r id,
+    renumbering (N.of_nat (List.length r)) pi /\ closed (restrict pi k r) /\
+    in_reg (restrict pi k r) (pi id) /\ (List.length (restrict pi k r) < List.length r)%nat /\
+    pi id <> id.
+Proof. exact V.Proofs.HasTypeFuel.restriction_closed_satisfiable. Qed.
+Print Assumptions C17_restriction_closed_satisfiable.
+
+(** the run-time checker of the de-duplication clause, evaluated on the MODEL's own outputs, answers
+    [true]: for a pair (case on [r], case on [renumber pi r]) whose recorded de-duplication
+    outcomes are the model's ([corr_dedup_obs]) and whose recorded permutation is the inverse of
+    [pi] ("entry [j] of b is entry [inv_on pi n j] of a"), under the hypothesis of
+    [C17_dedup_partition_invariant_partial].  So what [prop_dedup_groups] demands of the
+    implementation is a consequence of that theorem plus the behavioural correspondence. *)
+From V Require Corr.RunTG Corr.CheckTG Proofs.DedupChecker.
+
+Theorem C17_dedup_checker_on_model :
+  forall pi r,
+    renumbering (N.of_nat (List.length r)) pi ->
+    V.Model.DedupPerm.teq_equiv_on_familiesb r = true ->
+    forall ca cb : V.Corr.RunTG.tg_case,
+      V.Corr.RunTG.tg_reg ca = r -> V.Corr.RunTG.tg_reg cb = renumber pi r ->
+      V.Corr.RunTG.tg_dedup ca =
+        V.Corr.RunTG.obs_of (rmap V.Corr.RunTG.reg_paths (ensure_unique r)) ->
+      V.Corr.RunTG.tg_dedup cb =
+        V.Corr.RunTG.obs_of (rmap V.Corr.RunTG.reg_paths (ensure_unique (renumber pi r))) ->
+      V.Corr.CheckTG.prop_dedup_groups_raw
+        (V.Corr.RunTG.mk_pair "renumbered" ca cb
+           (map (inv_on pi (List.length r)) (seqN (List.length r)))) = true.
+Proof. exact V.Proofs.DedupChecker.dedup_checker_on_model. Qed.
+Print Assumptions C17_dedup_checker_on_model.
+
+(** ** "[Ok] implies [Ok]" (Proofs/GenerateOkTransfer.v): the item [C17_permutation_tokens] lists as
+    not proved, under the hypothesis that makes it true.  Generation with the REAL comparison stays
+    successful under every renumbering when [types_equal] is an equivalence relation on every
+    same-path family of [r] ([teq_equiv_on_families]; F1 / F3 / F14 / F18 are its failures): the
+    loop compares each item-eligible entry with the first earlier one of its path, and on an
+    equivalence "all equal to the first" is "pairwise equal", whatever the order.  PARTIAL: that
+    hypothesis; and one direction (the converse is this statement for the inverse renumbering,
+    which exists as a renumbering of [renumber pi r] only for closed registries). *)
+From V Require Proofs.GenerateOkTransfer.
+
+Theorem C17_generate_ok_transfer_partial :
+  forall pi r s m,
+    renumbering (N.of_nat (List.length r)) pi ->
+    V.Model.DedupPerm.teq_equiv_on_families r ->
+    generate r s (types_equal r) = Ok m ->
+    exists m', generate (renumber pi r) s (types_equal (renumber pi r)) = Ok m'.
+Proof. exact V.Proofs.GenerateOkTransfer.generate_ok_transfer. Qed.
+Print Assumptions C17_generate_ok_transfer_partial.
+
+(** ... with [C17_permutation_tokens]: successful AND token-identical *)
+Theorem C17_permutation_outcome_partial :
+  forall pi r s m1,
+    renumbering (N.of_nat (List.length r)) pi ->
+    skeleton_consistent r s -> docs_consistent r s -> derives_functional s ->
+    V.Model.DedupPerm.teq_equiv_on_familiesb r = true ->
+    generate r s (types_equal r) = Ok m1 ->
+    exists m2, generate (renumber pi r) s (types_equal (renumber pi r)) = Ok m2 /\
+               emit_module s m1 = emit_module s m2.
+Proof. exact V.Proofs.GenerateOkTransfer.permutation_outcome. Qed.
+Print Assumptions C17_permutation_outcome_partial.
+
+Theorem C17_permutation_outcome_satisfiable :
+  exists pi r s,
+    renumbering (N.of_nat (List.length r)) pi /\
+    skeleton_consistentb r s = true /\ docs_consistentb r s = true /\ derives_functionalb s = true /\
+    V.Model.DedupPerm.teq_equiv_on_familiesb r = true /\ ~ unique_item_paths r s /\
+    is_ok (generate r s (types_equal r)) = true.
+Proof. exact V.Proofs.GenerateOkTransfer.permutation_outcome_satisfiable. Qed.
+Print Assumptions C17_permutation_outcome_satisfiable.
+
+(** a semantic class on which the hypothesis [teq_equiv_on_families] holds: the program-derived
+    registries of the fragment of [C04_program_untouched_partial] (definitions in
+    [teq_program_okb], pairwise distinct definition paths, coincidence-free interned
+    instantiations) - there all entries carrying one namespaced path are judged equal.  So on this
+    class [C17_dedup_partition_invariant_partial] and [C17_generate_ok_transfer_partial] hold for
+    every renumbering without a run-time check.  PARTIAL: the fragment. *)
+From V Require Model.Program Model.ProgramSkel Model.ProgramTeq.
+
+Theorem C17_program_teq_equiv_partial :
+  forall defs L r,
+    V.Model.Program.RegistryOf defs L r ->
+    (forall sd, In sd defs ->
+       V.Model.ProgramTeq.teq_program_okb sd = true /\
+       forall lsb, V.Model.Program.sd_path sd <> V.Model.ProgramSkel.order_path_of lsb) ->
+    (forall d1 d2 sd1 sd2,
+       nth_error defs d1 = Some sd1 -> nth_error defs d2 = Some sd2 ->
+       V.Model.Program.sd_path sd1 = V.Model.Program.sd_path sd2 -> d1 = d2) ->
+    (forall id d args sd,
+       L id = Some (V.Model.Program.SApp d args) -> nth_error defs d = Some sd ->
+       V.Model.Program.instantiation_cf defs sd args = true /\ map V.Model.Program.canon args = args) ->
+    V.Model.DedupPerm.teq_equiv_on_families r.
+Proof. exact V.Proofs.GenerateOkTransfer.program_teq_equiv. Qed.
+Print Assumptions C17_program_teq_equiv_partial.
+
+(** ** restriction with the REAL comparison (Proofs/RestrictionReal.v).  [C17_restriction_outcome]
+    asks the oracle of the restricted run to judge every retained family equal ([fam_equal]) and
+    remarks that this cannot be derived from the full run.  Under the equivalence hypothesis it
+    can. *)
+From V Require Proofs.RestrictionReal.
+
+(** a successful comparison in a prefix of the registry is the same successful comparison in the
+    whole registry (more entries and more fuel never hurt) *)
+Theorem C17_types_equal_prefix :
+  forall r1 r2 a b x, types_equal_res r1 a b = Ok x -> types_equal_res (r1 ++ r2) a b = Ok x.
+Proof. exact V.Proofs.RestrictionReal.types_equal_prefix. Qed.
+Print Assumptions C17_types_equal_prefix.
+
+(** the hypothesis [fam_equal] of [C17_restriction_outcome] for the restricted registry's own
+    [types_equal], from a successful FULL generation *)
+Theorem C17_fam_equal_real_partial :
+  forall pi k r s m,
+    renumbering (N.of_nat (List.length r)) pi -> closed (restrict pi k r) ->
+    V.Model.DedupPerm.teq_equiv_on_families r ->
+    generate r s (types_equal r) = Ok m ->
+    fam_equal (restrict pi k r) s (types_equal (restrict pi k r)).
+Proof. exact V.Proofs.RestrictionReal.fam_equal_real. Qed.
+Print Assumptions C17_fam_equal_real_partial.
+
+(** C17_restriction (items) with the real comparison on both sides: a successful generation from
+    the full registry implies a successful generation from every closed restriction of it, and
+    every item of the latter is an item of the former at the same path with the same tokens.
+    PARTIAL: the hypothesis [teq_equiv_on_familiesb r]; the other hypotheses are those of
+    [C17_restriction_outcome]. *)
+Theorem C17_restriction_outcome_real_partial :
+  forall pi k r s m,
+    renumbering (N.of_nat (List.length r)) pi ->
+    skeleton_consistent r s -> docs_consistent r s -> derives_functional s ->
+    no_outside_roots (dr_recursive (s_dreg s)) (dropped pi k r) ->
+    closed (restrict pi k r) ->
+    V.Model.DedupPerm.teq_equiv_on_familiesb r = true ->
+    generate r s (types_equal r) = Ok m ->
+    exists m', generate (restrict pi k r) s (types_equal (restrict pi k r)) = Ok m' /\
+      forall p id' ir', items_get m' p = Some (id', ir') ->
+        exists id ir, items_get m p = Some (id, ir) /\ type_ir_tokens s ir' = type_ir_tokens s ir.
+Proof. exact V.Proofs.RestrictionReal.restriction_outcome_real. Qed.
+Print Assumptions C17_restriction_outcome_real_partial.
+
+(** ** the inverse renumbering (Proofs/RenumberInverse.v): a closed registry with ids = positions
+    can be renumbered back, so every transfer along [renumber pi] is an equivalence there *)
+From V Require Proofs.RenumberInverse.
+
+Theorem C17_inverse_is_renumbering :
+  forall pi n, renumbering (N.of_nat n) pi ->
+    renumbering (N.of_nat n) (V.Proofs.RenumberInverse.inv_renumbering pi n).
+Proof. exact V.Proofs.RenumberInverse.inv_renumbering_is_renumbering. Qed.
+Print Assumptions C17_inverse_is_renumbering.
+
+Theorem C17_renumber_inverse :
+  forall pi r,
+    renumbering (N.of_nat (List.length r)) pi -> ids_consistent r = true -> closed r ->
+    renumber (V.Proofs.RenumberInverse.inv_renumbering pi (List.length r)) (renumber pi r) = r.
+Proof. exact V.Proofs.RenumberInverse.renumber_inverse. Qed.
+Print Assumptions C17_renumber_inverse.
+
+(** "[Ok] iff [Ok]": on a closed registry with ids = positions, generation with the real
+    comparison succeeds iff it succeeds on the renumbered registry.  PARTIAL: the equivalence
+    hypothesis [teq_equiv_on_families r]. *)
+Theorem C17_generate_ok_iff_partial :
+  forall pi r s,
+    renumbering (N.of_nat (List.length r)) pi -> ids_consistent r = true -> closed r ->
+    V.Model.DedupPerm.teq_equiv_on_families r ->
+    ((exists m, generate r s (types_equal r) = Ok m) <->
+     (exists m', generate (renumber pi r) s (types_equal (renumber pi r)) = Ok m')).
+Proof. exact V.Proofs.RenumberInverse.generate_ok_iff_renumber. Qed.
+Print Assumptions C17_generate_ok_iff_partial.
